@@ -9,6 +9,7 @@ import (
 	"os"
 	"path/filepath"
 	"strings"
+	"time"
 
 	"github.com/yuin/goldmark"
 	"github.com/yuin/goldmark/ast"
@@ -204,7 +205,7 @@ type rendererOption interface{}
 // extension option switched on, and a few single ones - convert a document that uses every
 // construct.  Configuration is per instance: nothing these instances do may show in the
 // instances the runner builds afterwards.  (C06 compares with fresh child processes instead.)
-func otherConfigurationsFirst() {
+func otherConfigurationsFirst(c *Ctx) {
 	sink := []byte("# H {#hid .c data-n=1}\n\nt {lang=en}\n===\n\n> q *e* **s** `c` [l](/u \"t\") ![i](/s) <http://a.b> <b>r</b> &amp; \\* ~~d~~ www.x.y a@b.c\n\n- [ ] t\n- [x] u\n\n1. o\n\n|a|b|\n|:-|-:|\n|c|d|\n\n```go {.f}\nx\n```\n\n    ind\n\n***\n\nf[^1] g[^2]\n\n[^1]: n\n[^2]: m\n\nterm\n: def\n\n\"q\" -- ... 'r'\n\n漢字\n漢字 x\\ y\n\n[r]: /ref 'T'\n\n[r] [R][]\n")
 	for _, cf := range []Cfg{
 		{Ext: "all", AutoID: true, Attr: true, Unsafe: true, XHTML: true, HardWraps: true, Opts: true, FnPrefix: "w-", TableAlign: 1},
@@ -212,8 +213,22 @@ func otherConfigurationsFirst() {
 		{Ext: "gfm", TableAlign: 3, Unsafe: true}, {Ext: "footnote", FnPrefix: "v-", FnPrefixFunc: true}, {Ext: "deflist", Attr: true, AutoID: true},
 	} {
 		md := cf.Build()
-		convertSafe(md, sink)
-		convertSafe(md, sink)
+		done := make(chan struct{})
+		go func() {
+			defer close(done)
+			convertSafe(md, sink)
+			convertSafe(md, sink)
+		}()
+		select {
+		case <-done:
+		case <-time.After(90 * time.Second):
+			// a conversion that does not return: C01's finding; the other runners go on without
+			// the rest of the warm-up (the stuck goroutine is abandoned)
+			if c.Prop == "C01" {
+				c.Violate("total:timeout", map[string]string{"config": cf.Name(), "source": q(sink), "stream": "other-configurations-first"}, "no result after 90s", "total:timeout")
+			}
+			return
+		}
 	}
 }
 
